@@ -273,6 +273,22 @@ def gen_cases(seed, chunk, n, tier):
             else:
                 exp = np.squeeze(D, axis=pos)
                 exp_idx = [ix for i, ix in enumerate(x.indices) if i != pos]
+                big = [i for i, ix in enumerate(x.indices) if ix.size_total > 1]
+                if big and rng.random() < 0.3:
+                    # name an axis of size > 1 instead (numpy raises): in particular an axis whose index has ONE
+                    # charge, the identity, with size > 1 — "one charge" is not "size one"
+                    import symmray as sr
+                    zero = gen.py_combine(sym, [])
+                    q = rng.choice(big)
+                    if rng.random() < 0.7:
+                        d_ = rng.randint(2, 3)
+                        idx2 = list(x.indices)
+                        idx2[q] = sr.BlockIndex({zero: d_}, dual=idx2[q].dual)
+                        x = gen.rand_array(rng, sym, indices=idx2, static=static, dtype=dtype, keep=keep, charge=x.charge)
+                        env = {"x": x}
+                        D = oracle.dense(x)
+                    p = dict(p, axis=[q])
+                    exp = "raise"
         elif op == "expand_dims":
             pos = rng.randint(0, x.ndim)
             p = {"axis": pos if rng.random() < 0.7 else pos - x.ndim - 1}
@@ -401,7 +417,7 @@ def gen_cases(seed, chunk, n, tier):
             elif "ok" in res[0]:
                 r = env2["r"]
                 if isinstance(exp, str) and exp == "raise":
-                    orc = "squeeze of a non-zero-charge axis did not raise"
+                    orc = "squeeze of an axis that cannot be squeezed (non-zero charge, or size > 1) did not raise"
                 elif isinstance(exp, str):
                     orc = _cmp_dense(r, D - oracle.dense(env["y"]), exp_idx, exp_charge)
                 elif op in ("sum", "norm2"):
